@@ -227,6 +227,11 @@ def runOp : P String := do
   | "HPHI" =>
     let x ← pFloat
     pure ("OK " ++ toHex (HP.toFloat (HP.Phi 128 (HP.ofFloat x))))
+  | "LADDER" =>
+    -- the literal model of common.py::_ladder_pairs on the list [1, …, n]
+    let n ← pNat
+    let l := (List.range n).map (· + 1)
+    pure ("OK " ++ " | ".intercalate ((ladderPairsCode l).map (fun p => " ".intercalate (p.map toString))))
   | "NUMLE" =>
     -- Python's exact mixed int/float comparison as modelled by PyNum.le
     let a ← pNum
